@@ -51,9 +51,17 @@ impl SvgOptions {
         }
         let color = color.as_bytes();
         let color = color.chunks_exact(2);
-        let color = color.map(|x| u8::from_str_radix(std::str::from_utf8(x).unwrap(), 16).unwrap());
+        let color = color.map(|x| {
+            std::str::from_utf8(x)
+                .ok()
+                .and_then(|x| u8::from_str_radix(x, 16).ok())
+        });
 
-        let mut color = color.collect::<Vec<u8>>();
+        // Anything that is not hexadecimal is not a color: the setters ignore it
+        let mut color = match color.collect::<Option<Vec<u8>>>() {
+            Some(color) => color,
+            None => return Vec::new(),
+        };
         if color.len() == 3 {
             color.push(255);
         }
